@@ -10,6 +10,7 @@ import (
 	"os"
 	"path/filepath"
 	"reflect"
+	"regexp"
 	"strings"
 	"time"
 
@@ -82,6 +83,18 @@ func c02Case(t listTemplate, decs []chunk, blank bool, hist []editOp) (sig, what
 			src = d
 		} else {
 			directive = func(s string) string { return s }
+		}
+	}
+	// every eleventh source has its lead comments in block style over two lines, and is printed a second
+	// time through a Restorer whose file set already holds a file (the second file of a package)
+	blockLeads := false
+	if len(src)%11 == 4 && strings.Contains(src, "// lead ") {
+		if b := canonical(blockLead(src)); b != "" && b == blockLead(src) {
+			src, blockLeads = b, true
+			inner := directive
+			directive = func(s string) string {
+				return inner(blockLead(s))
+			}
 		}
 	}
 	var f *dst.File
@@ -184,6 +197,25 @@ func c02Case(t listTemplate, decs []chunk, blank bool, hist []editOp) (sig, what
 	if xbuf.String() != got {
 		return "list-edit-extras-text-differs", fmt.Sprintf("%s: after %s the tree prints\n%s\nbut with Restorer.Extras = true\n%s", t.Name, histString(hist), got, xbuf.String()), true
 	}
+	if blockLeads {
+		var b2 bytes.Buffer
+		var e2 error
+		m2 := guard(func() {
+			r2 := decorator.NewRestorer()
+			if t.Qualified {
+				r2 = decorator.NewRestorerWithImports("example.com/p", libNames)
+			}
+			r2.Fset = token.NewFileSet()
+			r2.Fset.AddFile("first.go", -1, 3210)
+			e2 = r2.Fprint(&b2, dst.Clone(f).(*dst.File))
+		})
+		if m2 != "" || e2 != nil {
+			return "edit-print-fails", fmt.Sprintf("as the second file of a file set: %s %v", m2, e2), true
+		}
+		if b2.String() != got {
+			return "list-edit-text-differs", fmt.Sprintf("%s: after %s the tree prints\n%s\nbut as the second file of a file set\n%s", t.Name, histString(hist), got, b2.String()), true
+		}
+	}
 	if viaAst {
 		// empty lines do not survive the restorer's position space (known, outside every property): the
 		// comparison is about which comment stands with which element
@@ -193,6 +225,21 @@ func c02Case(t listTemplate, decs []chunk, blank bool, hist []editOp) (sig, what
 		return "list-edit-text-differs", fmt.Sprintf("%s: after %s the tree prints\n%s\nbut the chunk-edited source formats to\n%s", t.Name, histString(hist), got, want), true
 	}
 	return "", "", true
+}
+
+// a lead comment of a chunk: "<indent>// lead k of eN"
+var leadRe = regexp.MustCompile(`// lead (\d+) of e(\d+)`)
+
+// blockLead rewrites the lead comments as block comments over two lines (the second line at the
+// indentation of the first).
+func blockLead(s string) string {
+	lines := strings.Split(s, "\n")
+	for i, l := range lines {
+		if m := leadRe.FindStringIndex(l); m != nil && strings.TrimSpace(l[:m[0]]) == "" {
+			lines[i] = l[:m[0]] + "/* " + strings.TrimPrefix(l[m[0]:], "// ") + "\n" + l[:m[0]] + "   continued */"
+		}
+	}
+	return strings.Join(lines, "\n")
 }
 
 func histString(h []editOp) string {
